@@ -13,7 +13,7 @@ TECHNIQUE = "bounded exhaustive enumeration of ranges x spellings x listings mix
 RULE = ("ranges: EVERY pair min<=max over a 6-value grid (incl. min=max, adjacent values, 1-digit and 8-digit values) x 4 "
         "spellings (0x/no 0x, leading zeros, upper-case digits) of min and max; listings: EVERY sequence of length 1..2 "
         "over an alphabet built per range: direct call/jmp with target in {min-1,min,min+1,max-1,max,max+1,far} (targets "
-        "printed as objdump does, and with 0x), indirect call/jmp (*%rax, *0x10(%rip), *(%rax)), conditional jumps in/out "
+        "printed as objdump does, and with 0x), indirect call/jmp (*%rax, *%r9, *%r10, *%r15, *0x10(%rip), *(%rax), absolute-slot *0x<min>, *0x<max>), conditional jumps in/out "
         "of range, non-branches whose first operand is an in-range number, operand-less and ordinary instructions; plus the "
         "option-absent control. Oracle from the decoded stream: must-tag (direct call/jmp, min<=T<=max) has operands "
         "exactly [valid_addr]; must-not-tag (out of range, indirect, non-branch) keeps the operands of the option-less "
@@ -56,6 +56,8 @@ def alphabet(lo, hi):
     A.append(("call", [f"0x{lo:x}"], lo, None))
     A.append(("jmp", [f"0x{hi + 1:x}"], hi + 1, None))
     A += [("call", ["*%rax"], None, None), ("call", ["*0x10(%rip)"], None, None), ("jmp", ["*(%rax)"], None, None),
+          ("call", [f"*0x{lo:x}"], None, None), ("jmp", [f"*0x{hi:x}"], None, None), ("call", ["*%r9"], None, None),
+          ("jmp", ["*%r10"], None, None), ("call", ["*%r15"], None, None),
           ("je", [f"{lo:x}"], "dc", "f"), ("jne", [f"{hi + 2:x}"], "dc", "f"),
           ("push", [f"$0x{lo:x}"], None, None), ("mov", [f"$0x{hi:x}", "%rax"], None, None), ("ret", [], None, None),
           ("mov", ["%rax", "%rbx"], None, None), ("lcall", [f"$0x{lo:x}", "$0x10"], None, None)]
